@@ -109,15 +109,23 @@ def gen_project(rng) -> Tuple[List[Unit], Dict[str, Any]]:
         sibs.append(Unit("pkg." + cname, False, "\n".join(lines) + "\n", "pkg"))
         consumers.append({"module": "pkg." + cname, "form": form, "locals": local, "use": use, "cname": cname,
                           "alias": ("t_%s.%s" % (cname, exported)) if via_alias else None})
-    meta = {"kind": kind, "import": imp, "objkind": objkind, "exported": exported, "reexporter": reexp_q,
+    extra_root = None
+    if rng.random() < 0.25:
+        # a second root whose name is a textual prefix of the package's name (or which the package's name prefixes),
+        # given BEFORE the package: looking a moved object up by its old name must pick the right root
+        extra_root = rng.choice(["pk", "p", "pkg_ext"])
+        units.insert(0, Unit(extra_root, False, "'''another root'''\nclass Unrelated:\n    pass\n", None))
+    meta = {"kind": kind, "import": imp, "objkind": objkind, "exported": exported, "reexporter": reexp_q, "extra_root": extra_root,
             "definer_all": b_all, "consumers": consumers, "imported_twice": twice, "definer_also_imports": speedups}
-    return [units[0]] + sibs, meta
+    return units + sibs, meta
 
 
 def orders(units: List[Unit], rng, limit: int) -> List[List[int]]:
     """reachable processing orders: the package first, its modules in any order"""
     n = len(units)
-    perms = [[0] + [i + 1 for i in p] for p in itertools.permutations(range(n - 1))]
+    # the roots given before the package, and the package itself, keep their places; the package's modules permute
+    k = next(i for i, u in enumerate(units) if u.qname == "pkg") + 1
+    perms = [list(range(k)) + [i + k for i in p] for p in itertools.permutations(range(n - k))]
     if len(perms) > limit:
         perms = [perms[0]] + rng.sample(perms[1:], limit - 1)
     return perms
